@@ -97,7 +97,9 @@ def luks_params(safe=None):
     ver = st.just(1) if safe else st.sampled_from(
         [1, 1, 0, 2, 3, -1, 257, 32767, -32768])
     return st.fixed_dictionaries(dict(
-        version=ver, payload_offset=st.sampled_from([0, 1, 2, 8, 8, 40]),
+        version=ver,
+        payload_offset=st.sampled_from([2, 8, 8, 40, 4096] if safe else
+                                       [0, 1, 2, 8, 8, 40]),
         payload=st.sampled_from([0, 1, 2048, 5000]), fill=fills))
 
 
